@@ -17,8 +17,8 @@ META = {
         "functions, non-exception classes, callable instances, sub-modules, nested attribute paths through classes and "
         "sub-modules, Exception and BaseException subclasses, methods of exception classes, class/static methods, missing "
         "names, missing modules, module None) plus harmless real names (builtins.object/len/print/eval, os.system, "
-        "subprocess.Popen, taskiq.serialization.ExceptionRepr) x args in {(), ('x',), (1, 2)} x placement {top level, "
-        "exc_cause, exc_context, cause of cause, context of cause} x loader {exception_to_python(ExceptionRepr), "
+        "subprocess.Popen, taskiq.serialization.ExceptionRepr) x args in {(), ('x',), (1, 2), ('a', 2, None)} x placement {top level and every "
+        "cause/context path of depth 1..3 below benign payloads (thorough: depth 4 too)} x loader {exception_to_python(ExceptionRepr), "
         "TaskiqResult.model_validate(dict), TaskiqResult.model_validate_json, and an _UnpickleableExceptionWrapper instance carrying the "
         "same names (what a pickled result holds)}. Monitors: every planted callable/class records "
         "calls and instantiations; a sys.meta_path recorder and a sys.modules key diff detect imports. Oracle: the outcome is a "
@@ -35,7 +35,7 @@ META = {
         "attribute hooks that run on plain getattr (module __getattr__, descriptors) are not planted: resolving a dotted name necessarily reads attributes",
     ],
     "required_counters": ["payloads", "security_errors", "exceptions_built", "synthetic_classes", "alias_loads"],
-    "bounds": {"quick": {"placements": 5, "loaders": 3}, "thorough": {"placements": 5, "loaders": 3, "extra": "two payloads per result (cause and context both crafted)"}},
+    "bounds": {"quick": {"placements": "all cause/context paths of depth <= 3 (15)", "loaders": 4}, "thorough": {"placements": "depth <= 3, plus depth 4 with one argument list", "loaders": 4, "extra": "two payloads per result (cause and context both crafted)"}},
 }
 
 CALLS: List[str] = []
@@ -214,8 +214,9 @@ TARGETS: List[Tuple[Optional[str], str, str]] = [
     ("taskiq.serialization", "issubclass", "unresolved"),
     ("taskiq.exceptions", "isinstance", "unresolved"),
 ]
-ARGS: List[Tuple[Any, ...]] = [(), ("x",), (1, 2)]
-PLACEMENTS = ["top", "cause", "context", "cause.cause", "cause.context"]
+ARGS: List[Tuple[Any, ...]] = [(), ("x",), (1, 2), ("a", 2, None)]
+PLACEMENTS = ["top"] + [".".join(c) for d in (1, 2, 3) for c in itertools.product(("cause", "context"), repeat=d)]
+DEEP_PLACEMENTS = [".".join(c) for c in itertools.product(("cause", "context"), repeat=4)]  # thorough, args ('x',) only
 LOADERS = ["exception_to_python", "model_validate", "model_validate_json", "wrapper_instance"]
 
 
@@ -224,6 +225,7 @@ def payload(mod: Optional[str], typ: str, args: Tuple[Any, ...]) -> Dict[str, An
 
 
 def wrap(p: Dict[str, Any], placement: str) -> Dict[str, Any]:
+    """The crafted payload at the end of a chain of benign RuntimeError payloads linked as `placement` says."""
     def benign(**kw: Any) -> Dict[str, Any]:
         d = payload("builtins", "RuntimeError", ("outer",))
         d.update(kw)
@@ -231,13 +233,10 @@ def wrap(p: Dict[str, Any], placement: str) -> Dict[str, Any]:
 
     if placement == "top":
         return p
-    if placement == "cause":
-        return benign(exc_cause=p)
-    if placement == "context":
-        return benign(exc_context=p)
-    if placement == "cause.cause":
-        return benign(exc_cause=benign(exc_cause=p))
-    return benign(exc_cause=benign(exc_context=p))
+    cur = p
+    for part in reversed(placement.split(".")):
+        cur = benign(**{"exc_cause" if part == "cause" else "exc_context": cur})
+    return cur
 
 
 def _planted_classes() -> Any:
@@ -490,6 +489,8 @@ def run_shard(shard: Dict[str, Any]) -> Dict[str, Any]:
         run_case(t, args, placement, loader, acc)
     probe_after(t, before, acc)
     if shard["tier"] == "thorough":
+        for placement, loader in itertools.product(DEEP_PLACEMENTS, LOADERS):
+            run_case(t, ("x",), placement, loader, acc)
         # two crafted payloads in one result: the trap in the context, a legitimate one in the cause and vice versa
         for other in TARGETS[:: 5]:
             for args in ARGS[:2]:
